@@ -27,13 +27,15 @@ Proof.
   destruct (posix_redirect (a, b) r) as [a' b']. apply IH; auto.
 Qed.
 
-Lemma final_sinks_objs : forall capture last rs o e,
-  okobj o e (fst (final_sinks capture last rs o e)) /\ okobj o e (snd (final_sinks capture last rs o e)).
+Lemma final_sinks_objs : forall v capture last rs o e,
+  okobj o e (fst (final_sinks v capture last rs o e)) /\ okobj o e (snd (final_sinks v capture last rs o e)).
 Proof.
-  intros capture last rs o e. unfold final_sinks.
+  intros v capture last rs o e. unfold final_sinks.
   assert (Ho : okobj o e o) by (left; reflexivity). assert (He : okobj o e e) by (right; left; reflexivity).
   destruct (last && capture).
-  - destruct (sinks_objs (filter is_file_redir rs) o e o e Ho He) as (A & B). cbn [fst snd].
+  - destruct (v_capfirst v).
+    { apply sinks_objs; [right; right; right; left; reflexivity | right; right; right; right; reflexivity]. }
+    destruct (sinks_objs (filter is_file_redir rs) o e o e Ho He) as (A & B). cbn [fst snd].
     split; [destruct (has1 rs); [exact A | right; right; right; left; reflexivity]
            | destruct (has2 rs); [exact B | right; right; right; right; reflexivity]].
   - apply sinks_objs; auto.
@@ -50,8 +52,8 @@ Proof.
   intros openable T0 i0 o0 e0 pc capture idx st k (S0 & S1 & S2) IO KS HE x j c.
   destruct (IO _ _ _ S0) as (n0 & ->). destruct (IO _ _ _ S1) as (n1 & ->). destruct (IO _ _ _ S2) as (n2 & ->).
   destruct (kid_std_fds _ _ _ _ _ _ _ _ _ _ _ KS HE) as (A & B & C).
-  set (fs := final_sinks capture (idx =? pc) (s_redirs st) (pro_out (OInh n1) pc idx) (OInh n2)) in *.
-  destruct (final_sinks_objs capture (idx =? pc) (s_redirs st) (pro_out (OInh n1) pc idx) (OInh n2)) as (OB & OC).
+  set (fs := final_sinks v0 capture (idx =? pc) (s_redirs st) (pro_out (OInh n1) pc idx) (OInh n2)) in *.
+  destruct (final_sinks_objs v0 capture (idx =? pc) (s_redirs st) (pro_out (OInh n1) pc idx) (OInh n2)) as (OB & OC).
   fold fs in OB, OC.
   assert (PO : forall y, okobj (pro_out (OInh n1) pc idx) (OInh n2) y ->
                (y = OPipeW (PStage j) -> j = idx /\ idx < pc) /\ y <> OPipeR (PStage j)).
@@ -69,7 +71,7 @@ Proof.
     + destruct (P1 E) as (-> & L). auto.
     + contradiction.
   - assert (CL : clean v0 capture (idx =? pc) (s_redirs st) = true).
-    { unfold clean, dirty, v0. cbn [v_dupclose v_capclose negb andb]. rewrite !andb_false_r. reflexivity. }
+    { unfold clean, dirty, v0. cbn [v_dupclose v_capclose v_capfirst negb andb]. rewrite !andb_false_r. reflexivity. }
     rewrite (kid_clean_above _ _ _ _ _ _ _ _ _ _ _ KS HE CL (S (S (S x)))) by lia.
     destruct (lookup T0 (S (S (S x)))) as [[o cx]|] eqn:EL; [|cbn; split; discriminate].
     destruct (IO _ _ _ EL) as (i & ->). destruct cx; cbn; split; discriminate.
